@@ -36,6 +36,9 @@ func VerifSetNodeDown(arg string) {
 		w.capacity[n] = 1 << 40
 	}
 	vTheWorld = w
+	// the node may be available again (its heartbeat came back) or not when the request arrives
+	w.st.nodes["a"].Available = vBool("node_is_available")
+	w.st.nodes["a"].Bypass = vBool("node_is_bypassed")
 	if vNativeRun {
 		// natively the real engine factory runs: give it its cache
 		enginefactory.InitEngineCache(context.Background(), c.config, nil)
